@@ -237,8 +237,64 @@ fn vec_pairs(file: &str, item: &str, env: &Env, elems: &[syn::Expr]) -> R<Vec<Pu
         .collect()
 }
 
+/// the pairs an iterator expression yields, in order:
+///   [PAIR, ..].into_iter() | vec![PAIR, ..].into_iter() | [std::iter::]once(PAIR) | I.chain(J)
+///   | OPT.map(|x| PAIR)   (an `Option` as the chained-in iterator: the pair is present iff OPT is `Some`)
+/// `.iter()`, `.into_iter()`, `.copied()`, `.cloned()` change the traversal, not the elements.
+fn iter_pushes(file: &str, item: &str, env: &Env, e: &syn::Expr) -> R<Option<Vec<Push>>> {
+    let e = strip_ref(e);
+    if let Some(elems) = vec_macro(e) {
+        return Ok(Some(vec_pairs(file, item, env, &elems)?));
+    }
+    match e {
+        syn::Expr::Array(a) => {
+            let elems: Vec<syn::Expr> = a.elems.iter().cloned().collect();
+            Ok(Some(vec_pairs(file, item, env, &elems)?))
+        }
+        syn::Expr::Call(c) if c.args.len() == 1 && last_segment(&c.func).as_deref() == Some("once") => {
+            Ok(Some(vec_pairs(file, item, env, &[c.args[0].clone()])?))
+        }
+        syn::Expr::MethodCall(m) => {
+            let name = m.method.to_string();
+            if m.args.is_empty() && ["iter", "into_iter", "copied", "cloned"].contains(&name.as_str()) {
+                return iter_pushes(file, item, env, &m.receiver);
+            }
+            if name == "chain" && m.args.len() == 1 {
+                let left = iter_pushes(file, item, env, &m.receiver)?;
+                let right = iter_pushes(file, item, env, &m.args[0])?;
+                return Ok(match (left, right) {
+                    (Some(mut l), Some(mut r)) => {
+                        l.append(&mut r);
+                        Some(l)
+                    }
+                    _ => None,
+                });
+            }
+            if name == "map" && m.args.len() == 1 {
+                if let Some((b, body)) = closure1(&m.args[0]) {
+                    // the optional value, seen through `.as_ref()` / `.as_deref()` / `.as_str()`
+                    let mut scrut_e: &syn::Expr = strip_ref(&m.receiver);
+                    while let syn::Expr::MethodCall(v) = scrut_e {
+                        if v.args.is_empty() && (v.method == "as_ref" || v.method == "as_deref") {
+                            scrut_e = strip_ref(&v.receiver);
+                        } else {
+                            break;
+                        }
+                    }
+                    let scrut = canon(text_view(scrut_e));
+                    let inner = env.with_rename(&b, "it");
+                    let (pname, value) = pair(file, item, &inner, &inner.resolve(body))?;
+                    return Ok(Some(vec![Push { name: pname, value, cond: Some(scrut) }]));
+                }
+            }
+            Ok(None)
+        }
+        _ => Ok(None),
+    }
+}
+
 /// a vector-valued expression:
-///   vec![("lit", V), ..]  |  Vec::new()  |  Vec::with_capacity(..)
+///   vec![("lit", V), ..]  |  Vec::new()  |  Vec::with_capacity(..)  |  <iterator of pairs>.collect()  (see iter_pushes)
 ///   match E { Some([ref] x) => VEC, None => VEC }  |  if let Some([ref] x) = E { VEC } else { VEC }
 /// For the two-armed forms the `None` list must be what remains of the `Some` list when some elements are left out;
 /// those elements are the ones pushed `if let Some(it) = E`.
@@ -251,6 +307,13 @@ fn vec_expr(file: &str, item: &str, env: &Env, e: &syn::Expr) -> R<Option<Vec<Pu
         let f = canon(&c.func);
         if (f.ends_with("Vec::new") && c.args.is_empty()) || (f.ends_with("Vec::with_capacity") && c.args.len() == 1) {
             return Ok(Some(Vec::new()));
+        }
+    }
+    // `<iterator of pairs>.collect()`
+    if let syn::Expr::MethodCall(m) = e {
+        if m.method == "collect" && m.args.is_empty() {
+            let r = env.resolve(&m.receiver);
+            return iter_pushes(file, item, env, &r);
         }
     }
     let two: Option<(String, &syn::Expr, Vec<syn::Stmt>, Vec<syn::Stmt>)> = match e {
